@@ -22,8 +22,15 @@ RULE = ('Hypothesis rule-based state machine on the real HostStatisticsCompiler 
         'After every push: series length <= stats_histo, value series aligned with their time series, a point only '
         'when >= period elapsed since the reference, CPU in [0,100] per core (process CPU in [0,100 x cores], divided '
         'in Solaris mode), rates finite and >= 0 everywhere (histories and returned payloads), no holder after pid 0. '
+        'Part b (collector side of "the history of a stopped process is dropped"): generated sequences of start / '
+        'restart under a new pid / repeated event / stop / silent death / collect(dt) on the real '
+        'ProcessStatisticsCollector (fake psutil, virtual clock, 5 namespecs) against a reference model: after every '
+        'operation the collector tracks exactly the (namespec, pid) pairs of the model, a stopped or replaced process '
+        'is published with pid 0 (which is what makes the compiler drop its history), a live one never is, and a '
+        'collect after a full period samples every live tracked process. '
         'Non-trivial = stream with a changing key set, a counter wrap or a pid change, long enough to truncate a '
-        'history; distinct = distinct operation sequences.')
+        'history (part b: a stop among three tracked processes, or a silent death followed by a full collect); '
+        'distinct = distinct operation sequences.')
 ASSUMPTIONS = ['the number of CPUs of one identifier is constant (DESIGN 8.6)',
                'timestamps of one source are strictly increasing']
 SHARDS = {'quick': 8, 'thorough': 16}
@@ -356,6 +363,176 @@ def make_machine(triage, result):
     return C20Machine
 
 
+# --- part b: the collector side of "the history of a stopped process is dropped" (real ProcessStatisticsCollector on a
+# fake psutil and a virtual clock, against a reference model of the tracked processes)
+COLL_NS = ['app:a', 'app:b', 'app:c', 'app:d', 'other:e']
+
+
+class _FakeClock:
+    def __init__(self):
+        self.now = 1000.0
+
+    def monotonic(self):
+        return self.now
+
+    def time(self):
+        return self.now
+
+    def sleep(self, _dt):
+        pass
+
+
+class CollectorHarness:
+    """Model: tracked = {namespec: pid} (entries the collector must hold), alive = pids alive in the fake OS."""
+
+    def __init__(self, period):
+        import psutil
+        from supvisors import statscollector as sc
+        self.sc, self.psutil = sc, psutil
+        self.alive = set()
+        self.clock = _FakeClock()
+        self.posts = []
+        self.tracked = {}
+        self.next_pid = 100
+        self.flags = set()
+        harness = self
+
+        class FakeProcess:
+            def __init__(self, pid=None):
+                if pid is not None and pid not in harness.alive:
+                    raise psutil.NoSuchProcess(pid)
+                self.pid = 1 if pid is None else pid
+
+        class FakePsutil:
+            NoSuchProcess, AccessDenied = psutil.NoSuchProcess, psutil.AccessDenied
+            Process = FakeProcess
+
+        class Conn:
+            def send(self, stats):
+                harness.posts.append(dict(stats))
+
+        self.saved = (sc.psutil, sc.time, sc.instant_process_statistics)
+        sc.psutil, sc.time = FakePsutil, self.clock
+        sc.instant_process_statistics = lambda proc, *a: (1.0, 1.0) if proc.pid in harness.alive or proc.pid in (1, 2) else None
+        self.alive.add(2)
+        self.period = period
+        self.coll = sc.ProcessStatisticsCollector(Conn(), period, True, 2)
+
+    def close(self):
+        self.sc.psutil, self.sc.time, self.sc.instant_process_statistics = self.saved
+
+    def _view(self):
+        return sorted((d['namespec'], d['process'].pid) for d in self.coll.processes)
+
+    def _check(self, what, expect_zero=()):
+        new, self.posts = self.posts, []
+        zeros = [x['namespec'] for x in new if x.get('pid') == 0]
+        for ns in expect_zero:
+            if ns not in zeros:
+                return ('collector:stopped-process-not-published', f'{what}: no pid 0 posted for the stopped {ns} '
+                        f'(the compiler keeps its history); posts {new}')
+        for ns in zeros:
+            if ns not in expect_zero:
+                return ('collector:live-process-published-as-stopped', f'{what}: pid 0 posted for {ns} which is alive '
+                        f'and tracked; posts {new}')
+        if self._view() != sorted(self.tracked.items()):
+            return ('collector:tracked-processes-differ', f'{what}: collector holds {self._view()}, expected '
+                    f'{sorted(self.tracked.items())}')
+        return None
+
+    def op_start(self, k):
+        ns = COLL_NS[k]
+        self.next_pid += 1
+        pid = self.next_pid
+        self.alive.add(pid)
+        expect = ()
+        if ns in self.tracked:
+            self.flags.add('pid-change')
+            self.alive.discard(self.tracked[ns])
+            expect = (ns,)
+        self.tracked[ns] = pid
+        self.coll.update_process_list(ns, pid)
+        return self._check(f'start {ns} pid {pid}', expect)
+
+    def op_same(self, k):
+        ns = COLL_NS[k]
+        if ns not in self.tracked or self.tracked[ns] not in self.alive:
+            return None
+        self.coll.update_process_list(ns, self.tracked[ns])
+        return self._check(f'repeated event {ns}')
+
+    def op_stop(self, k):
+        ns = COLL_NS[k]
+        expect = ()
+        if ns in self.tracked:
+            self.alive.discard(self.tracked.pop(ns))
+            expect = (ns,)
+            self.flags.add('stop-tracked')
+            if len(self.tracked) >= 2:
+                self.flags.add('stop-among-3')
+        self.coll.update_process_list(ns, 0)
+        return self._check(f'stop {ns}', expect)
+
+    def op_die(self, k):
+        ns = COLL_NS[k]
+        if ns in self.tracked:
+            self.alive.discard(self.tracked[ns])
+            self.flags.add('silent-death')
+        return None
+
+    def op_collect(self, dt):
+        self.clock.now += dt
+        before = dict(self.tracked)
+        n = 0
+        while self.coll.collect_processes_statistics() and n < 50:
+            n += 1
+        dead = [ns for ns, pid in before.items() if pid not in self.alive]
+        new = list(self.posts)
+        zeros = [x['namespec'] for x in new if x.get('pid') == 0]
+        for ns in zeros:
+            if ns in dead:
+                self.tracked.pop(ns, None)
+        bad = self._check(f'collect +{dt}', tuple(ns for ns in zeros if ns in dead))
+        if bad:
+            return bad
+        if dt >= self.period:
+            # every tracked process is due: the live ones are sampled, the dead ones published as stopped
+            sampled = {x['namespec'] for x in new if x.get('pid')}
+            for ns, pid in before.items():
+                if pid in self.alive and ns not in sampled:
+                    return ('collector:live-process-not-sampled', f'collect +{dt} (period {self.period}): {ns} pid {pid} '
+                            f'is alive and tracked but no sample was posted; posts {new}')
+                if pid not in self.alive and ns not in zeros:
+                    return ('collector:stopped-process-not-published', f'collect +{dt}: {ns} pid {pid} died, no pid 0 '
+                            f'posted; posts {new}')
+            self.flags.add('full-collect')
+        return None
+
+
+coll_ops_st = st.lists(st.one_of(
+    st.tuples(st.just('start'), st.integers(0, len(COLL_NS) - 1)),
+    st.tuples(st.just('start'), st.integers(0, len(COLL_NS) - 1)),
+    st.tuples(st.just('same'), st.integers(0, len(COLL_NS) - 1)),
+    st.tuples(st.just('stop'), st.integers(0, len(COLL_NS) - 1)),
+    st.tuples(st.just('die'), st.integers(0, len(COLL_NS) - 1)),
+    st.tuples(st.just('collect'), st.sampled_from([0.5, 1.0, 5.0, 5.0, 10.0]))), min_size=1, max_size=40)
+
+
+def run_collector_ops(period, ops):
+    h = CollectorHarness(period)
+    try:
+        for op in ops:
+            try:
+                bad = getattr(h, 'op_' + op[0])(*op[1:])
+            except Exception as exc:
+                bad = exception_signature(exc)
+            if bad:
+                return bad, h
+        return None, h
+    finally:
+        h.close()
+
+
 def run_shard(ctx: ShardCtx) -> ShardResult:
     result = ShardResult()
     triage = Triage(ctx, result)
@@ -369,10 +546,32 @@ def run_shard(ctx: ShardCtx) -> ShardResult:
             report_multiple_bugs=False, phases=phases, suppress_health_check=list(HealthCheck), print_blob=False))
 
     triage.collect(go)
+
+    def go_collector():
+        @hypothesis.seed(ctx.hyp_seed + 104729 * len(result.findings))
+        @settings(max_examples=ctx.scale(1500, 30000), deadline=None, database=None, phases=phases,
+                  suppress_health_check=list(HealthCheck), print_blob=False)
+        @hypothesis.given(period=st.sampled_from([1.0, 5.0, 10.0]), ops=coll_ops_st)
+        def test(period, ops):
+            bad, h = run_collector_ops(period, ops)
+            case = {'kind': 'collector', 'period': period, 'ops': [list(op) for op in ops]}
+            nontrivial = 'stop-among-3' in h.flags or ('silent-death' in h.flags and 'full-collect' in h.flags)
+            result.note(['collector', period] + case['ops'], nontrivial, sample=case if len(ops) < 8 else None)
+            for f in h.flags:
+                result.classes['collector:' + f] += 1
+            result.classes['collector-sequences'] += 1
+            if bad:
+                triage.report(bad[0], bad[1], case)
+        test()
+
+    triage.collect(go_collector)
     return result
 
 
 def replay(case) -> list:
+    if case.get('kind') == 'collector':
+        bad, _h = run_collector_ops(case['period'], [tuple(op) for op in case['ops']])
+        return [Finding(bad[0], bad[1], case)] if bad else []
     cfg = case['config']
     h = Harness(cfg['periods'], cfg['histo'], cfg['irix'])
     bad = run_ops(h, [tuple(op) for op in case['ops']])
